@@ -77,8 +77,10 @@ def run_impl(spec):
     t = loop.run_loop(spec)
     try:
         lines = loop.to_lines(t)
-        mon = loop.monitor_k(t) + loop.monitor_c01(t) + loop.monitor_c13_loop(t) + loop.monitor_c20_loop(t) + loop.monitor_witness(t)
+        mon = (loop.monitor_k(t) + loop.monitor_c01(t) + loop.monitor_c13_loop(t) + loop.monitor_c20_loop(t)
+               + loop.monitor_counters_backend(t) + loop.monitor_witness(t))
         hist = loop.histogram(t)
+        hist.update(loop.witness_hist(t))
         return {"lines": lines, "monitor": mon, "meta": {"hist": hist, "kinds": loop.call_kinds(t)}}
     finally:
         loop.cleanup(t)
@@ -91,7 +93,4 @@ def nontrivial(trace):
 def extra(ctx):
     """the witnesses of the `_counterexample` theorems are corpus cases (handed out by the model driver, replayed
     call by call on the real Tuner); record whether the real code still shows each of them"""
-    seen = {(f.get("spec", {}).get("witness"), f["signature"]) for f in ctx.findings}
-    ctx.notes["counterexamples_replayed_on_real_code"] = {
-        thm: ((name, sig) in seen) for name, (thm, sig) in loop.WITNESSES.items() if thm in THEOREMS
-    }
+    ctx.notes["counterexamples_replayed_on_real_code"] = loop.witness_report(ctx, THEOREMS)
